@@ -108,6 +108,25 @@ Definition out_of_time (s : sstate) : bool * sstate :=
   (match k with Some kk => (kk <=? clock s)%N | None => false end, with_clock s (clock s + 1)%N).
 
 (* ---- quiesce *)
+Definition q_fn := BoardState -> Z -> Z -> sstate -> res (Z * sstate).         (* board alpha beta state *)
+Definition search_fn := BoardState -> Z -> Z -> Z -> Z -> bool -> sstate -> res (Z * sstate).
+                                                        (* board depth ply alpha beta allow_null state *)
+
+(* `for mov in moves` of quiesce, with the recursive call as a parameter *)
+Fixpoint q_loop (qrec : q_fn) (ms : list BoardState) (alpha beta : Z) (s : sstate) : res (Z * sstate) :=
+  match ms with
+  | [] => Ok (alpha, s)
+  | mov :: rest =>
+      match qrec mov (- beta) (- alpha) s with
+      | Ok (v, s) =>
+          let score := - v in
+          if beta <=? score then Ok (beta, s)
+          else q_loop qrec rest (if alpha <? score then score else alpha) beta s
+      | Err e => Err e
+      | Panic p => Panic p
+      end
+  end.
+
 Fixpoint quiesce (fuel : nat) (b : BoardState) (alpha beta : Z) (s : sstate) : res (Z * sstate) :=
   match fuel with
   | O => Err 99
@@ -118,19 +137,7 @@ Fixpoint quiesce (fuel : nat) (b : BoardState) (alpha beta : Z) (s : sstate) : r
       else
         let alpha := if alpha <? stand_pat then stand_pat else alpha in
         let '(moves, s) := do_sort (generate_moves zt b CapturesOnly) s in
-        (fix loop (ms : list BoardState) (alpha : Z) (s : sstate) : res (Z * sstate) :=
-           match ms with
-           | [] => Ok (alpha, s)
-           | mov :: rest =>
-               match quiesce f mov (- beta) (- alpha) s with
-               | Ok (v, s) =>
-                   let score := - v in
-                   if beta <=? score then Ok (beta, s)
-                   else loop rest (if alpha <? score then score else alpha) s
-               | Err e => Err e
-               | Panic p => Panic p
-               end
-           end) moves alpha s
+        q_loop (quiesce f) moves alpha beta s
   end.
 
 Definition rank_moves (s : sstate) (ply : Z) (moves : list BoardState) : res (list BoardState) :=
@@ -142,6 +149,104 @@ Definition rank_moves (s : sstate) (ply : Z) (moves : list BoardState) : res (li
                  else mov) moves)
   | _, _ => Panic 62
   end.
+
+(* every return after add_board_to_draw_table goes through remove_board_from_draw_table *)
+Definition leave (b : BoardState) (v : Z) (s : sstate) : res (Z * sstate) :=
+  Ok (v, with_table s (dt_remove (table s) b)).
+
+(* the zero-window loop over the moves after the first, with the recursive call as a parameter *)
+Fixpoint ab_loop (rec : search_fn) (b : BoardState) (depth ply beta : Z) (ms : list BoardState)
+         (alpha best_score : Z) (s : sstate) : res (Z * sstate) :=
+  match ms with
+  | [] => leave b best_score s
+  | mov :: rest =>
+      match insert_into_cur_line s ply mov with
+      | Err e => Err e
+      | Panic p => Panic p
+      | Ok s =>
+      match rec mov (depth - 1) (ply + 1) (- alpha - 1) (- alpha) true s with
+      | Err e => Err e
+      | Panic p => Panic p
+      | Ok (v1, s) =>
+      let score := - v1 in
+      let research : res (Z * Z * sstate) :=
+        if (alpha <? score) && (score <? beta) then
+          match rec mov (depth - 1) (ply + 1) (- beta) (- alpha) true s with
+          | Ok (v2, s) => let score := - v2 in Ok (score, (if alpha <? score then score else alpha), s)
+          | Err e => Err e
+          | Panic p => Panic p
+          end
+        else Ok (score, alpha, s) in
+      match research with
+      | Err e => Err e
+      | Panic p => Panic p
+      | Ok (score, alpha, s) =>
+          if best_score <? score then
+            if beta <=? score then
+              match (if order_heuristic mov =? 0 then insert_killer_move s ply mov else Ok s) with
+              | Ok s => leave b score s
+              | Err e => Err e
+              | Panic p => Panic p
+              end
+            else ab_loop rec b depth ply beta rest alpha score (set_principle_variation s)
+          else ab_loop rec b depth ply beta rest alpha best_score s
+      end end end
+  end.
+
+(* the part of alpha_beta_search after the draw-table add, with the recursive calls as parameters *)
+Definition ab_body (rec : search_fn) (qrec : q_fn) (b : BoardState) (depth ply alpha beta : Z) (allow_null : bool)
+           (s : sstate) : res (Z * sstate) :=
+  let in_check_now := is_check b (to_move b) in
+  if (depth =? 0) && negb in_check_now then
+    qrec b alpha beta (with_table s (dt_remove (table s) b))
+  else
+  let depth := if depth =? 0 then depth + 1 else depth in
+  let alpha := Z.max alpha (- MATE_SCORE + ply) in
+  let beta := Z.min beta (MATE_SCORE - ply) in
+  if beta <=? alpha then leave b alpha s
+  else
+  (* null move *)
+  let null_result : res (option Z * sstate) :=
+    if allow_null && (NULL_MIN_DEPTH <=? depth) && negb in_check_now then
+      match rec (with_to_move b (opposite (to_move b))) (depth - NULL_REDUCTION) (ply + NULL_PLY_OFFSET)
+                (- beta) (- beta + 1) false s with
+      | Ok (v, s) => if beta <=? - v then Ok (Some beta, s) else Ok (None, s)
+      | Err e => Err e
+      | Panic p => Panic p
+      end
+    else Ok (None, s) in
+  match null_result with
+  | Err e => Err e
+  | Panic p => Panic p
+  | Ok (Some v, s) => leave b v s
+  | Ok (None, s) =>
+  let moves := generate_moves zt b AllMoves in
+  match moves with
+  | [] => if is_check b (to_move b) then leave b (- (MATE_SCORE - ply)) s else leave b 0 s
+  | _ =>
+  match rank_moves s ply moves with
+  | Err e => Err e
+  | Panic p => Panic p
+  | Ok moves =>
+  let '(moves, s) := do_sort moves s in
+  match moves with
+  | [] => Panic 63                      (* moves[0] on an empty vector *)
+  | m0 :: rest =>
+  match insert_into_cur_line s ply m0 with
+  | Err e => Err e
+  | Panic p => Panic p
+  | Ok s =>
+  let s := if negb (order_heuristic m0 =? POS_INF) then set_principle_variation s else s in
+  match rec m0 (depth - 1) (ply + 1) (- beta) (- alpha) true s with
+  | Err e => Err e
+  | Panic p => Panic p
+  | Ok (v0, s) =>
+  let best_score := - v0 in
+  if (alpha <? best_score) && (beta <=? best_score) then leave b best_score s
+  else
+  let '(alpha, s) := if alpha <? best_score then (best_score, set_principle_variation s) else (alpha, s) in
+  ab_loop rec b depth ply beta rest alpha best_score s
+  end end end end end end.
 
 (* ---- alpha_beta_search *)
 Fixpoint alpha_beta (fuel : nat) (b : BoardState) (depth ply alpha beta : Z) (allow_null : bool) (s : sstate)
@@ -157,93 +262,7 @@ Fixpoint alpha_beta (fuel : nat) (b : BoardState) (depth ply alpha beta : Z) (al
       if is_threefold_repetition (table s) b then Ok (0, s)
       else
       let s := with_table s (dt_add (table s) b) in
-      let leave (v : Z) (s : sstate) : res (Z * sstate) := Ok (v, with_table s (dt_remove (table s) b)) in
-      let in_check_now := is_check b (to_move b) in
-      if (depth =? 0) && negb in_check_now then
-        quiesce f b alpha beta (with_table s (dt_remove (table s) b))
-      else
-      let depth := if depth =? 0 then depth + 1 else depth in
-      let alpha := Z.max alpha (- MATE_SCORE + ply) in
-      let beta := Z.min beta (MATE_SCORE - ply) in
-      if beta <=? alpha then leave alpha s
-      else
-      (* null move *)
-      let null_result : res (option Z * sstate) :=
-        if allow_null && (NULL_MIN_DEPTH <=? depth) && negb in_check_now then
-          match alpha_beta f (with_to_move b (opposite (to_move b))) (depth - NULL_REDUCTION) (ply + NULL_PLY_OFFSET)
-                           (- beta) (- beta + 1) false s with
-          | Ok (v, s) => if beta <=? - v then Ok (Some beta, s) else Ok (None, s)
-          | Err e => Err e
-          | Panic p => Panic p
-          end
-        else Ok (None, s) in
-      match null_result with
-      | Err e => Err e
-      | Panic p => Panic p
-      | Ok (Some v, s) => leave v s
-      | Ok (None, s) =>
-      let moves := generate_moves zt b AllMoves in
-      match moves with
-      | [] => if is_check b (to_move b) then leave (- (MATE_SCORE - ply)) s else leave 0 s
-      | _ =>
-      match rank_moves s ply moves with
-      | Err e => Err e
-      | Panic p => Panic p
-      | Ok moves =>
-      let '(moves, s) := do_sort moves s in
-      match moves with
-      | [] => Panic 63                      (* moves[0] on an empty vector *)
-      | m0 :: rest =>
-      match insert_into_cur_line s ply m0 with
-      | Err e => Err e
-      | Panic p => Panic p
-      | Ok s =>
-      let s := if negb (order_heuristic m0 =? POS_INF) then set_principle_variation s else s in
-      match alpha_beta f m0 (depth - 1) (ply + 1) (- beta) (- alpha) true s with
-      | Err e => Err e
-      | Panic p => Panic p
-      | Ok (v0, s) =>
-      let best_score := - v0 in
-      if (alpha <? best_score) && (beta <=? best_score) then leave best_score s
-      else
-      let '(alpha, s) := if alpha <? best_score then (best_score, set_principle_variation s) else (alpha, s) in
-      (fix loop (ms : list BoardState) (alpha best_score : Z) (s : sstate) : res (Z * sstate) :=
-         match ms with
-         | [] => leave best_score s
-         | mov :: rest =>
-             match insert_into_cur_line s ply mov with
-             | Err e => Err e
-             | Panic p => Panic p
-             | Ok s =>
-             match alpha_beta f mov (depth - 1) (ply + 1) (- alpha - 1) (- alpha) true s with
-             | Err e => Err e
-             | Panic p => Panic p
-             | Ok (v1, s) =>
-             let score := - v1 in
-             let research : res (Z * Z * sstate) :=
-               if (alpha <? score) && (score <? beta) then
-                 match alpha_beta f mov (depth - 1) (ply + 1) (- beta) (- alpha) true s with
-                 | Ok (v2, s) => let score := - v2 in Ok (score, (if alpha <? score then score else alpha), s)
-                 | Err e => Err e
-                 | Panic p => Panic p
-                 end
-               else Ok (score, alpha, s) in
-             match research with
-             | Err e => Err e
-             | Panic p => Panic p
-             | Ok (score, alpha, s) =>
-                 if best_score <? score then
-                   if beta <=? score then
-                     match (if order_heuristic mov =? 0 then insert_killer_move s ply mov else Ok s) with
-                     | Ok s => leave score s
-                     | Err e => Err e
-                     | Panic p => Panic p
-                     end
-                   else loop rest alpha score (set_principle_variation s)
-                 else loop rest alpha best_score s
-             end end end
-         end) rest alpha best_score s
-      end end end end end end
+      ab_body (alpha_beta f) (quiesce f) b depth ply alpha beta allow_null s
   end.
 
 (* ---- send_search_info: the info line without its trailing " time T" *)
